@@ -23,7 +23,7 @@ are unguarded and 3 only narrowly guarded (`unguardedStages`), so totality rests
 `e_jsonDumps` is refuted on the real code (F33: a HolographicValue reaches json.dumps).
 -/
 import Octave.Lemmas.Tools
-import Octave.Gen.Guards
+import Octave.Lemmas.Guards
 namespace Octave.C20tools
 open Octave.Tools
 
@@ -31,19 +31,8 @@ open Octave.Tools
 
 open Octave.Gen
 
-def guardMatches : Guard → String → Bool
-  | .exc, g => g == "Exception"
-  | .narrow, g => "narrow:".toList.isPrefixOf g.toList
-  | .none, g => g == "none"
-
-def siteGuard (sites : List CallSite) (tool call : String) (idx : Nat) : Option String :=
-  (sites.find? (fun c => c.tool == tool && c.call == call && c.idx == idx)).map (·.guard)
-
 /-- The guard each model stage assumes is the guard of its call site in today's source. -/
-theorem C20_guards_model :
-    Stage.all.all (fun s => match siteGuard callSites s.site.1 s.site.2.1 s.site.2.2 with
-                            | some g => guardMatches s.guard g
-                            | none => false) = true := by decide +kernel
+theorem C20_guards_model : Stage.all.all (stageGuardAgrees callSites) = true := guards_model
 
 /-- Calls that are not modelled as separately failing stages.  `total`: builtins, methods of str / dict / list
 values whose type is fixed by the surrounding code, dataclass constructors, the tools' own envelope helpers.
